@@ -124,6 +124,76 @@ def lean_audit(prop):
     return wanted, discharged, problems
 
 
+def _driver_stack():
+    """a deep recursion of the model (very long texts) needs more than the default 8 MiB of stack"""
+    import resource
+    try:
+        soft, hard = resource.getrlimit(resource.RLIMIT_STACK)
+        want = 1 << 30
+        if hard != resource.RLIM_INFINITY:
+            want = min(want, hard)
+        resource.setrlimit(resource.RLIMIT_STACK, (want, hard))
+    except (ValueError, OSError):
+        pass
+
+
+def _run_driver(lines):
+    """one driver process for `lines`; a line on which the driver dies (stack overflow, abort) or which it does not answer within
+    VERIF_MODEL_LINE_TIMEOUT seconds gets the result `model-crash ...` / `model-timeout ...` and the rest is evaluated by a new
+    process: on the unchanged tree no generated line does that, on a changed tree the line is one the code produced (e.g. a text
+    it wrote) and the result counts as a disagreement"""
+    import threading
+    limit = int(os.environ.get("VERIF_MODEL_LINE_TIMEOUT", "90"))
+    out = []
+    rest = list(lines)
+    bad = 0
+    while rest:
+        p = subprocess.Popen([DRIVER], stdin=subprocess.PIPE, stdout=subprocess.PIPE, stderr=subprocess.PIPE, text=True,
+                             preexec_fn=_driver_stack)
+        got, last, err = [], [time.time()], []
+
+        def reader():
+            for ln in p.stdout:
+                got.append(ln[:-1] if ln.endswith("\n") else ln)
+                last[0] = time.time()
+
+        def errreader():
+            err.append(p.stderr.read())
+
+        def writer():
+            try:
+                p.stdin.write("\n".join(rest) + "\n")
+                p.stdin.close()
+            except (BrokenPipeError, OSError):
+                pass
+        ths = [threading.Thread(target=f, daemon=True) for f in (reader, errreader, writer)]
+        for t in ths:
+            t.start()
+        timed_out = False
+        while ths[0].is_alive():
+            ths[0].join(1.0)
+            if ths[0].is_alive() and time.time() - last[0] > limit and p.poll() is None:
+                timed_out = True
+                p.kill()
+        p.wait()
+        for t in ths[1:]:
+            t.join(5)
+        res = got[:len(rest)]
+        if not timed_out and p.returncode == 0 and len(res) == len(rest):
+            out += res
+            break
+        if len(res) >= len(rest):
+            raise InternalError(f"model driver failed (rc={p.returncode}) after answering all {len(rest)} lines")
+        out += res
+        out.append((f"model-timeout the model driver did not answer this line within {limit} s" if timed_out else
+                    f"model-crash the model driver died on this line (rc={p.returncode}: {(''.join(err) or '').strip()[:80]})"))
+        rest = rest[len(res) + 1:]
+        bad += 1
+        if bad > 20:
+            raise InternalError("model driver died / hung on more than 20 lines")
+    return out
+
+
 def model_eval(lines, nproc=None):
     """evaluate protocol lines on the compiled Lean model"""
     if not lines:
@@ -132,27 +202,23 @@ def model_eval(lines, nproc=None):
         raise InternalError("model driver not built: " + DRIVER)
     nproc = nproc or (NCPU if len(lines) > 4000 else 1)
     chunks = [lines[i::nproc] for i in range(nproc)]
-    procs = []
-    for ch in chunks:
-        p = subprocess.Popen([DRIVER], stdin=subprocess.PIPE, stdout=subprocess.PIPE, text=True)
-        procs.append(p)
-    outs = []
     import threading
     results = [None] * nproc
+    errors = []
 
     def feed(i):
-        o, _ = procs[i].communicate("\n".join(chunks[i]) + "\n")
-        results[i] = o.split("\n")[:-1] if o.endswith("\n") else o.split("\n")
+        try:
+            results[i] = _run_driver(chunks[i])
+        except BaseException as e:      # noqa: BLE001
+            errors.append(e)
 
     ths = [threading.Thread(target=feed, args=(i,)) for i in range(nproc)]
     for t in ths:
         t.start()
     for t in ths:
         t.join()
-    for i in range(nproc):
-        if procs[i].returncode != 0 or len(results[i]) != len(chunks[i]):
-            raise InternalError(
-                f"model driver failed (rc={procs[i].returncode}, {len(results[i])} results for {len(chunks[i])} lines)")
+    if errors:
+        raise errors[0]
     out = [None] * len(lines)
     for i in range(nproc):
         out[i::nproc] = results[i]
